@@ -32,6 +32,24 @@ Section Rich.
     destruct frs as [|[s|name] [|f frs]]; try reflexivity. destruct pl; reflexivity.
   Qed.
 
+  (** [rich_string_parse] is [SymbolNameOrStringRichStringParser] followed by the reduction of a bare
+      symbol name to a one-symbol string *)
+  Lemma rich_string_parse_reduces : forall ts,
+    rich_string_parse alnum ts =
+    do r <- rich_symref_or_string alnum ts;
+    Ok (match fst r with inl n => [FSym n] | inr f => f end, snd r).
+  Proof.
+    intros ts. unfold rich_string_parse, rich_symref_or_string.
+    destruct (tp_require_has_valid_head_token ts); cbn [bind]; [|reflexivity].
+    destruct (ts_head ts) as [hd|]; [|reflexivity].
+    destruct (starts_with_here_doc_prefix (t_source hd)).
+    - destruct (heredoc_parse alnum ts) as [[frs0 ts0]|e]; reflexivity.
+    - destruct (tp_has_valid_head_unquoted_equals [58; 62] ts).
+      + destruct (ts_consume ts) as [r|e]; cbn [bind]; [|reflexivity].
+        destruct (ts_consume_line false (snd r)) as [r2|e]; reflexivity.
+      + destruct (parse_symref_or_string alnum ts) as [[[n0|f0] ts0]|e]; reflexivity.
+  Qed.
+
   Theorem rich_string_token : forall lead t rest,
     forallb is_sep lead = true -> wf_tok t = true -> rest_ok rest -> is_reserved_word t = false ->
     plain_for_rich t = true ->
